@@ -266,9 +266,16 @@ def containsSub (hay needle : List Nat) : Bool :=
   | [] => needle.isEmpty
   | _ :: rest => hay.take needle.length == needle || containsSub rest needle
 
-/-- the preprocessor as far as the API histories exercise it: texts with an unknown directive are
-    rejected, every other generated text passes through unchanged (as far as the parser can tell) -/
-def ppModel (t : List Nat) : Option (List Nat) := if containsSub t (str "#bogus") then none else some t
+/-- the preprocessor as far as the API histories exercise it -/
+def dropSub (needle : List Nat) : Nat → List Nat → List Nat
+  | 0, t => t
+  | _, [] => []
+  | f + 1, c :: r => if needle.isPrefixOf (c :: r) then dropSub needle f ((c :: r).drop needle.length) else c :: dropSub needle f r
+
+/-- texts with an unknown directive are rejected; `__EVAL(<number>)` leaves `(<number>)`; every other generated text
+    passes through unchanged (as far as the parser can tell) -/
+def ppModel (t : List Nat) : Option (List Nat) :=
+  if containsSub t (str "#bogus") then none else some (dropSub (str "__EVAL") (t.length + 1) t)
 
 def renderInt (i : Int) : List Nat := if i < 0 then [45] ++ natStr i.natAbs else natStr i.toNat
 
